@@ -22,7 +22,7 @@ RULE = (
     "package and every pair of pre-emptions at lines of the dispatch code (engines/*.py, event.py, send) for 2 senders sending (1,1), (1,2), (2,1) "
     "events and (1,1) with yielding listener callbacks [thorough: all pairs over every line for (1,1), plus (2,2) and nested sends]; Hypothesis draws schedules with <=4 pre-emptions for 2-4 senders, biased to steps inside the queue / "
     "processing-loop code. ASYNCIO (coroutine callbacks): every callback awaits a gate; a controller releases waiting gates in a generated order "
-    "once all runnable tasks are blocked; senders await the event directly or create the coroutine first and await it later. History invariants: "
+    "once all runnable tasks are blocked; senders await the event directly or create the coroutine first and await it later; every gate order of the small configurations (2 tasks x 1 event, with deferred await / nested send; more in thorough) is enumerated, larger ones are drawn. History invariants: "
     "(a) begin/end markers of different events never interleave; (b) the multiset of processed events equals the multiset sent (incl. nested); "
     "(c) each sender's events are processed in the order it sent them; (d) when all senders have returned nothing is left unprocessed and the state "
     "is the start state advanced by the number of events. non-trivial = a schedule in which an event was processed by another thread/task than its "
@@ -198,7 +198,7 @@ def run_async(case):
     labels = {"asyncio", f"tasks:{len(senders)}"}
 
     async def main():
-        sched = GateSched(case.get("choices", [0]))
+        sched = GateSched(case.get("choices", [0]), cycle=not case.get("exact"))
         with warnings.catch_warnings():
             warnings.simplefilter("ignore")
             sm, log = build_async(case.get("cycle", 1), case.get("nested", []), sched)
@@ -233,6 +233,7 @@ def run_async(case):
         return check_history(log, sent_events(senders, case.get("nested", [])), case.get("cycle", 1), sm.current_state.id), log, sched
 
     bad, log, sched = asyncio.run(main())
+    case["_branching"] = sched.branching
     if bad:
         return outcome(False, "C06:" + bad[0], f"asyncio, senders {senders}, styles {case.get('styles')}, gate order {sched.trace[:30]}: {bad[1]}", labels=labels)
     nt = contended(log)
@@ -305,7 +306,39 @@ def extra(tier, seed, shard, nshards):
             yield case, out
             if not out["ok"]:
                 return
-    yield None, {"exhaustive_schedules": total, "exhaustive": True}
+    # asyncio: EVERY order in which the controller can release the waiting gates, for the small configurations
+    # (odometer over the schedule tree; the branching factor at each release is the number of waiting gates)
+    aconfigs = [{"senders": [1, 1], "styles": ["await", "await"]}, {"senders": [1, 1], "styles": ["deferred", "await"]},
+                {"senders": [1, 1], "styles": ["await", "await"], "nested": [[0, 0]]}]
+    if tier == "thorough":
+        aconfigs += [{"senders": [1, 2], "styles": ["deferred", "idle"]}, {"senders": [2, 1], "styles": ["await", "deferred"], "nested": [[1, 0]]},
+                     {"senders": [1, 1, 1], "styles": ["await", "deferred", "await"]}]
+    atotal = 0
+    for cfg in aconfigs:
+        vec = []
+        n_cfg = 0
+        while True:
+            n_cfg += 1
+            case = dict({"engine": "asyncio", "cycle": 2, "nested": [], "activate": True, "exact": True}, **cfg, choices=list(vec))
+            mine = (idx + n_cfg) % nshards == shard
+            out = run_case(case)
+            br = case.pop("_branching", [])
+            if mine:
+                atotal += 1
+                yield case, out
+                if not out["ok"]:
+                    return
+            elif not out["ok"]:
+                pass  # reported by the shard that owns this schedule
+            full = (vec + [0] * len(br))[: len(br)]
+            i = len(br) - 1
+            while i >= 0 and full[i] + 1 >= br[i]:
+                i -= 1
+            if i < 0 or n_cfg > (4000 if tier == "quick" else 60000):
+                break
+            vec = full[:i] + [full[i] + 1]
+        idx += n_cfg
+    yield None, {"exhaustive_schedules": total, "exhaustive_async_gate_orders": atotal, "exhaustive": True}
 
 
 # ------------------------------------------------------------------------------------------ generated schedules
